@@ -31,6 +31,10 @@ var verifC05Src = []string{
 	"alter table t add c default b first",                      // 17: a default computed from an existing column, at a position
 	"alter table t add (c default a, d default id) before b",   // 18
 	"alter table t add c default b after id",                   // 19
+	"insert into t (b, id, a) values (@p, @q, @r)",             // 20: every column named, in another order
+	"insert into t (b, a, id) select id, a, b from t where a < @x", // 21
+	"replace into t (b, a, id) using (id) values (@p, @q, 1), (@r, @q, 9)", // 22
+	"insert into t (a) values (@p), (@q)",                      // 23
 }
 
 var verifC05Rollback []parser.Statement
@@ -238,6 +242,24 @@ func VerifC05Statements() {
 				want++
 			}
 		}
+	case 20:
+		ref = append(ref, refRow{[]verifCellSpec{iv(q), iv(r), iv(p)}, -1})
+		want = 1
+	case 21:
+		want = 0
+		for i := 0; i < n; i++ {
+			if lt(a[i], x) {
+				ref = append(ref, refRow{[]verifCellSpec{b[i], a[i], id(int64(i))}, -1})
+				want++
+			}
+		}
+	case 22:
+		ref[1].cells[1], ref[1].cells[2] = iv(q), iv(p)
+		ref = append(ref, refRow{[]verifCellSpec{id(9), iv(q), iv(r)}, -1})
+		want = 2
+	case 23:
+		ref = append(ref, refRow{[]verifCellSpec{null, iv(p), null}, -1}, refRow{[]verifCellSpec{null, iv(q), null}, -1})
+		want = 2
 	case 12:
 		want = 0
 		for i := range ref {
